@@ -2,13 +2,16 @@
 structures of configurations for state_dict), worker / driver plumbing, comparison."""
 import copy
 import json
+import os
 
 from . import common, identlib
 from .gen import cfggen
 
 WORKER = "xv.impl.serial_worker"
 DRIVER = "Serial"
-TAGVALS = ["bm25", 1, 0.5, "x y", 3, True]
+TAGVALS = ["bm25", 1, 0.5, "x y", 3, True, 0, False]
+DATA_PAIRS = [("/XVDATA/q/model.bin", "/XVDATA/d/model.bin"), ("/XVDATA/q/weights.pt", "/XVDATA/d/weights.pt")]
+DATA_POOL = [f"/XVDATA/f{i}.bin" for i in range(8)] + [p for pair in DATA_PAIRS for p in pair]
 
 
 DUNDERS = ["len", "bool", "eq", "iter", "getattr"]
@@ -41,8 +44,10 @@ def gen_lib(rng, tag, data=True, dunders=None):
         for c in lib["classes"]:
             if c["name"].startswith("C") and rng.random() < 0.35:
                 inherited = {a["name"] for a in cfggen.all_args(lib, c["name"])}
-                if "dp" not in inherited:
+                if "dp" not in inherited and "dp2" not in inherited:
                     c["args"].append({"name": "dp", "decl": "data", "ty": "path", "optional": False})
+                    if rng.random() < 0.5:      # two data files held by ONE configuration
+                        c["args"].append({"name": "dp2", "decl": "data", "ty": "path", "optional": False})
     return lib
 
 
@@ -50,11 +55,35 @@ def kind_of(lib, cname):
     return next(c for c in lib["classes"] if c["name"] == cname)["kind"]
 
 
+def type_keys(rng, v, p=0.3):
+    """dictionaries with a key "type" (finding F9: written wrapped as {"type": "dict", "value": …} since fix 738540e), sometimes
+    together with a key "value" (the shape of a serialised object), at any depth"""
+    if isinstance(v, dict):
+        if "l" in v:
+            return {"l": [type_keys(rng, x, p) for x in v["l"]]}
+        if "d" in v:
+            items = [[k, type_keys(rng, x, p)] for k, x in v["d"]]
+            keys = [k for k, _ in items]
+            if items and "type" not in keys and rng.random() < p:
+                i = rng.randrange(len(items))
+                items[i][0] = "type"
+                if len(items) > 1 and "value" not in keys and rng.random() < 0.5:
+                    j = rng.choice([x for x in range(len(items)) if x != i])
+                    items[j][0] = "value"
+            return {"d": items}
+    return v
+
+
 def gen_graph(rng, lib, max_nodes=8, cycles=True, task_links=True, tags=True):
     g = cfggen.gen_graph(rng, lib, max_nodes=max_nodes, cycles=cycles)
     for nd in g["nodes"]:
         data = {a["name"] for a in cfggen.all_args(lib, nd["cls"]) if a["decl"] == "data"}
-        nd["values"] = [[k, ({"p": f"/XVDATA/f{rng.randrange(8)}.bin"} if k in data else v)] for k, v in nd["values"]]
+        # data files: often two files with the same base name in different directories (different contents)
+        pair = rng.choice(DATA_PAIRS) if len(data) > 1 and rng.random() < 0.6 else None
+        if pair and rng.random() < 0.5:
+            pair = pair[::-1]
+        pool = iter(pair or ())
+        nd["values"] = [[k, ({"p": next(pool, None) or rng.choice(DATA_POOL)} if k in data else type_keys(rng, v))] for k, v in nd["values"]]
         if not task_links:
             nd["task"] = None
         if tags and rng.random() < 0.25:
@@ -113,20 +142,33 @@ def gen_value(rng, g):
         return {"r": 0}
     if r < 0.7:
         return {"l": [{"r": rng.randrange(n)} for _ in range(rng.choice([1, 2, 3]))]}
-    ks = rng.sample(cfggen.KEYS, rng.choice([1, 2, 3]))
+    ks = rng.sample(cfggen.KEYS + ["type", "value", "type"], rng.choice([1, 2, 3]))
+    ks = list(dict.fromkeys(ks))
     return {"d": [[k, ({"r": rng.randrange(n)} if rng.random() < 0.7 else {"l": [{"r": rng.randrange(n)}, {"r": 0}]})] for k in ks]}
 
 
 def graph_stats(lib, g):
     st = identlib.graph_stats(g)
     st["data"] = sum(1 for nd in g["nodes"] for k, v in nd["values"] if isinstance(v, dict) and str(v.get("p", "")).startswith("/XVDATA"))
+    st["data2"] = sum(1 for nd in g["nodes"] if len({os.path.basename(v["p"]) for k, v in nd["values"] if isinstance(v, dict) and str(v.get("p", "")).startswith("/XVDATA")})
+                      < sum(1 for k, v in nd["values"] if isinstance(v, dict) and str(v.get("p", "")).startswith("/XVDATA")))
     st["meta_false"] = sum(1 for nd in g["nodes"] if nd["meta"] is False)
     st["paths"] = sum(1 for nd in g["nodes"] for k, v in nd["values"] if isinstance(v, dict) and "p" in v)
     st["tags"] = sum(len(nd.get("tags", [])) for nd in g["nodes"])
+    st["typekey"] = sum(1 for nd in g["nodes"] for k, v in nd["values"] if has_type_key(v))
     st["prerepeat"] = sum(1 for nd in g["nodes"] if len(set(nd["pre"])) < len(nd["pre"]))
     dun = {c["name"] for c in lib["classes"] if c.get("dunder")}
     st["dunder"] = sum(1 for nd in g["nodes"] if nd["cls"] in dun)
     return st
+
+
+def has_type_key(v):
+    if isinstance(v, dict):
+        if "l" in v:
+            return any(has_type_key(x) for x in v["l"])
+        if "d" in v:
+            return any(k == "type" or has_type_key(x) for k, x in v["d"])
+    return False
 
 
 def run(ctx, libs, cases, shards=8):
@@ -195,6 +237,17 @@ def norm(x):
         x = dict(x)
         x["store"] = sorted(x["store"])
         x.pop("pre", None)
+    if isinstance(x, dict) and isinstance(x.get("tags"), list):     # a dictionary: the property fixes no order of the tags
+        x = dict(x)
+        x["tags"] = sorted(x["tags"], key=lambda kv: kv[0])
+    if isinstance(x, dict) and isinstance(x.get("dir"), list):      # a directory: name -> content (first binding wins), no order
+        x = dict(x)
+        seen = {}
+        for k, c in x["dir"]:
+            seen.setdefault(k, c)
+        x["dir"] = sorted([k, c] for k, c in seen.items())
+        if isinstance(x.get("gen2"), dict):
+            x["gen2"] = norm(x["gen2"])
     if isinstance(x, dict) and isinstance(x.get("log"), list):
         x = dict(x)
         x["log"] = canon_log(x["log"], x.get("attrs"))
@@ -254,7 +307,7 @@ def install_local_findings(prop):
 
 
 def feature_key(st):
-    return "+".join(k for k in ("files", "dunder", "meta", "pre", "prerepeat", "init", "taskout", "data", "paths", "tags", "cyclic") if st.get(k)) or "plain"
+    return "+".join(k for k in ("files", "dunder", "meta", "pre", "prerepeat", "init", "taskout", "data", "data2", "paths", "tags", "typekey", "cyclic") if st.get(k)) or "plain"
 
 
 def make_cases(ctx, rng, kind, nlibs, per, tag):
